@@ -168,6 +168,8 @@ func (r *recorder) hook(dev string, proto string, guid2 map[string]string) *worl
 				s = "ReplaceVoucher:" + guid2[f.GUID]
 			case "ModuleCall":
 				s = "ModuleCall:" + strings.TrimPrefix(f.Mod, "m")
+			case "KeysStored":
+				s = "KeysStored"
 			}
 			if len(ev.Fx) == 0 || ev.Fx[len(ev.Fx)-1] != s {
 				ev.Fx = append(ev.Fx, s)
